@@ -110,6 +110,10 @@ func checkC16(c C16Case) (labels []string, nontrivial bool, err error) {
 			if g.K == "C" {
 				closeTwice = true
 			}
+			if g.K == "C" && g.Err == nil && len(g.Out) > 0 {
+				// the property's own clause, for flate, gzip and zlib alike (compress/zlib itself re-emits its trailer)
+				return nil, false, fmt.Errorf("call %d of %q: a repeated Close returned nil and emitted %d more bytes (%s)", i, c.Seq, len(g.Out), hexPrefix(g.Out, 8))
+			}
 			if len(g.Out) > 0 && len(w.Out) == 0 {
 				return nil, false, fmt.Errorf("call %d of %q (%s) after a successful Close emitted %d bytes (the standard library's Writer emits none)", i, c.Seq, g.K, len(g.Out))
 			}
